@@ -272,7 +272,7 @@ def check_case(case, ctx):
     opts = dict(case["opts"])
     mul, pw = opts["display_multiply"], opts["display_exponent"]
     fails = []
-    nvars = [var_index(n) for n in p.names]  # the order is relative to the polynomial's own name order
+    nvars = sorted(var_index(n) for n in p.names)  # the monomial order refers to the indeterminates in index order
     graded, reverse, inverse = opts["display_graded"], opts["display_reverse"], opts["display_inverse"]
     kinds = ["repr"] if (mul == " " and p.ndim) else ["str", "repr"]
     setting = "graded=%s,reverse=%s,inverse=%s,exp=%r,mul=%r" % (graded, reverse, inverse, pw, mul)
